@@ -488,6 +488,17 @@ class Explorer:
             v.data['decisions'] = list(ctx.decisions)
             v.data['notes'] = ctx.notes
             self.violations.append(v)
+        except RustPanic as e:
+            # a reachable panic is an error state in every harness (C18); it is reported with a model of the path
+            st.paths += 1
+            st.panics += 1
+            try:
+                mdl = ctx.model()
+            except Exception:
+                mdl = {}
+            d = dict(ctx.notes.get('data', {}))
+            d.update({'model': mdl, 'panic': e.msg, 'decisions': list(ctx.decisions), 'notes': {k: v for k, v in ctx.notes.items() if k != 'data'}})
+            self.violations.append(Violation('panic: ' + e.msg, d))
         except (BoundExceeded, Unsupported) as e:
             self.inconclusive.append('%s: %s (decisions %s)' % (type(e).__name__, e, ctx.decisions[:40]))
         finally:
